@@ -163,7 +163,34 @@ def distinct_long(p):
     return mk('distinct_long', [('x', 'int')], ['0 <= x <= %d' % m], body)
 
 
-FAMILIES = {'seqop': seqop, 'sort': sort, 'distinct_long': distinct_long}
+def seqop_many(p):
+    """K groups live at once under group_by (K crosses table growth steps 8 / 16 / 64), the sequence operator placed after a filter: group 0 is created by an item
+    the filter drops - it is live, but the operator has seen nothing for it - while all the other groups are created and receive an item (the state tables
+    grow meanwhile); then groups 0, 1 and K-1 receive symbolic items.  Every group's outputs against the list definition on the items that pass the filter"""
+    op, arg, K = p['op'], p.get('arg'), p['k']
+    fac, oracle, _, _ = OPS[op]
+    pre = ['0 <= v%d <= 2' % i for i in range(4)] if op == 'distinct' else ['-2**40 <= v%d <= 2**40' % i for i in range(4)]
+
+    def body(a):
+        v0, v1, v2, v3 = a
+        items = [(0, -1)] + [(k, k % 3) for k in range(1, K)] + [(0, v0), (K - 1, v1), (0, v2), (1, v3), (0, v1), (K // 2, 2)]
+        log = []
+        inner = [rs.ops.map(lambda i: i[1]), rs.ops.filter(lambda v: v >= 0)] + fac(arg) + [D.tap(log, (lambda x: list(x)) if op == 'batch' else None)]
+        err = []
+        D.src(items).pipe(rs.state.with_memory_store([rs.ops.group_by(lambda i: i[0], inner)])).subscribe(on_error=lambda e: err.append(repr(e)))
+        buckets, wf = D.lifetimes(log)
+        if err or not wf or len(buckets) != K:
+            return fail(op=op, arg=arg, live_groups=K, problem='group lifecycles', err=err, groups_seen=len(buckets))
+        for k in range(K):
+            its = [v for kk, v in items if kk == k and v >= 0]
+            exp = oracle(its, arg)
+            if buckets[k] != exp:
+                return fail(op=op, arg=arg, live_groups=K, group=k, group_items=its, observed=buckets[k], expected=exp)
+        return True
+    return mk('seq_many_' + op, [('v%d' % i, 'int') for i in range(4)], pre, body)
+
+
+FAMILIES = {'seqop': seqop, 'sort': sort, 'distinct_long': distinct_long, 'seqop_many': seqop_many}
 
 
 def obligations(tier, seed):
@@ -208,6 +235,9 @@ def obligations(tier, seed):
             for k in (1, 2):
                 obs.append(Ob(PROP, 'seqop', dict(op=op, n=3, mode=mode, arg=arg, resub=k), budget=b, group='seqop_resubscribed:' + op,
                               bound=dict(items=3, mode=mode, arg=arg, history='aborted subscription after %d items, then two clean subscriptions of the same operator objects' % k)))
+    for op, arg in (('first', None), ('last', None), ('take', 2), ('duc', None), ('lag', 1), ('pad_end', [1, None]), ('start_with', [5, 6]), ('batch', 2), ('distinct', None)):
+        for k in ((9, 17) if q else (9, 10, 17, 33, 65, 129)):
+            obs.append(Ob(PROP, 'seqop_many', dict(op=op, arg=arg, k=k), budget=b * 2, group='seqop: many live groups', bound=dict(live_groups=k, op=op, arg=arg, symbolic_items=4)))
     ng = 4 if q else 5
     for op, arg in (('first', None), ('last', None), ('take', 1), ('take', 2), ('distinct', None), ('duc', None), ('lag', 1), ('lag', 2), ('lag', 3), ('pad_start', [1, None]), ('pad_end', [2, None]),
                     ('pad_end', [1, 7]), ('start_with', [5, 6]), ('batch', 2), ('batch', 3)):
